@@ -257,8 +257,9 @@ def unframe(tr, chunks):
     return frames + ([rest] if rest else [])
 
 
-def compare(sent, delivered, t: Tally, case, direction, recfeats):
-    """judge one forwarded message.  recfeats: per record features in wire order (or None for queries' records)"""
+def compare(sent, delivered, t: Tally, case, direction, recfeats, verdicts=None):
+    """judge one forwarded message.  recfeats: per record features in wire order (or None for queries' records);
+    verdicts: optional list receiving (type, same meaning?) per record"""
     ms = R.decode(sent)  # harness self-check: what the peer sends is well-formed for the reference decoder
     mfeat = {"scope": "message", "dir": direction}
     if delivered is None:
@@ -277,7 +278,9 @@ def compare(sent, delivered, t: Tally, case, direction, recfeats):
             f = recfeats[i] if recfeats and i < len(recfeats) else {"scope": "record", "rtype": R.type_name(a["type"]), "ptrlike": "none", "rdname": "none", "idn": False}
             i += 1
             assert a["fits"], ("harness wrote RDATA that does not fit its schema", a)
-            t.judge("same_meaning", R.record_meaning(a) == R.record_meaning(b), f, case, R.record_meaning(a), R.record_meaning(b))
+            same = t.judge("same_meaning", R.record_meaning(a) == R.record_meaning(b), f, case, R.record_meaning(a), R.record_meaning(b))
+            if verdicts is not None:
+                verdicts.append([f["rtype"], f["ptrlike"], f["rdname"], bool(same)])
             if not R.has_names(a["type"]):
                 t.judge("non_name_types_bytewise", a["rdata"] == b["rdata"], f, case, a["rdata"], b["rdata"])
     return True
@@ -302,6 +305,7 @@ def run_case(case, t: Tally, verbose=False):
     if len(to_server) > 1:
         t.bad("same_meaning", {"scope": "message", "dir": "query", "problem": "duplicated"}, case, "one message", len(to_server))
     delivered_resp = False
+    verdicts = []
     if reached:
         d.server_data(frame(tr, resp))
         to_client = unframe(tr, d.out["client"])
@@ -318,8 +322,8 @@ def run_case(case, t: Tally, verbose=False):
                 f.update({k: recfeats[0][k] for k in ("rtype", "ptrlike", "rdname", "idn")})
             t.bad("same_meaning", f, case, "the response, forwarded once", [e for e in d.log if e[0] in ("crash", "log", "close")][:3])
         else:
-            delivered_resp = compare(resp, to_client[0], t, case, "response", recfeats)
-    t.outcome([len(d.out["server"]), len(d.out["client"]), [e[:2] for e in d.log if e[0] in ("crash", "close")]])
+            delivered_resp = compare(resp, to_client[0], t, case, "response", recfeats, verdicts)
+    t.outcome([len(d.out["server"]), len(d.out["client"]), [e[:2] for e in d.log if e[0] in ("crash", "close")], sorted(verdicts)])
     t.case(case if len(case["recs"]) <= 2 else None, nontrivial=delivered_resp, key=[tr, resp, query])
     t.add("records_forwarded", len(recs) if delivered_resp else 0)
 
